@@ -262,10 +262,12 @@ class _ReadSourceGenerator:
 
             if current_offset is not None and size is not None and (not field.bits or bits_rollover):
                 current_offset += size
-                bits_rollover = False
             elif size is None:
                 # After a dynamically sized field we no longer know where we are (a later explicit offset needs a seek)
                 current_offset = None
+
+            # Only the bit field that opened the storage unit positions the stream, also when the offset is unknown
+            bits_rollover = False
 
         yield from flush()
 
